@@ -3,6 +3,7 @@
 package main
 
 import (
+	"strings"
 	"context"
 	"encoding/json"
 	"flag"
@@ -60,6 +61,10 @@ func main() {
 	conns := map[string]interface{ Close() error }{}
 	for _, c := range p.Calls {
 		conn, err := srv.Dial(ctx, c.Cred)
+		if err != nil && strings.HasPrefix(err.Error(), "ticket:") {
+			fmt.Fprintln(os.Stderr, "credential could not be prepared:", err)
+			os.Exit(2)
+		}
 		if err != nil {
 			log.Emit(world.Ev{"ev": "ApiCall", "id": c.ID, "cred": c.Cred, "method": c.Method, "target": c.Target, "outcome": "transport", "data": false, "detail": "dial: " + err.Error()})
 			continue
